@@ -268,3 +268,28 @@ Definition client_paused_log (c : cstate) (pieces : list (list N)) : list header
     let log := frame_headers (hd [] pieces) in
     if c_closed c then firstn 1 log else log
   else [].
+
+(* ---- writers shared between goroutines.  msgWriter.Write(mid, out) (msg_builder.go; one writer is
+   shared by the goroutines of its users) puts Header{version of the writer, out.Type(),
+   len(out.MarshalBinary()), mid} and the payload on the underlying io.Writer under its mutex; the
+   write loop of a Client does the same for the messages queued by concurrent SendNoWait calls.
+   An item is (type, payload length, id, payload byte). *)
+Definition msg_writer_frame (ver : N) (it : N * N * N * N) : option (list N) :=
+  let '(typ, len, id, fill) := it in
+  match hdr_encode (mkHdr ver typ len id) with
+  | Some b => Some (b ++ repeat fill (N.to_nat len))
+  | None => None
+  end.
+
+(* the frames that reach the wire for the calls [items], in the order the writer served them *)
+Definition msg_writer_frames (ver : N) (items : list (N * N * N * N)) : list (list N) :=
+  flat_map (fun it => match msg_writer_frame ver it with Some f => [f] | None => [] end) items.
+
+Definition msg_writer_stream (ver : N) (items : list (N * N * N * N)) : list N :=
+  concat (msg_writer_frames ver items).
+
+(* the headers of the accepted calls *)
+Definition msg_writer_headers (ver : N) (items : list (N * N * N * N)) : list header :=
+  flat_map (fun it => let '(typ, len, id, _) := it in
+                      match hdr_encode (mkHdr ver typ len id) with Some _ => [mkHdr ver typ len id] | None => [] end)
+           items.
